@@ -1,4 +1,6 @@
 """C08 Colored text behaves exactly like the underlying string."""
+import sys
+
 import vf
 vf.use_repo()
 from ak.color import CHText, ColorFmt  # noqa: E402
@@ -156,13 +158,14 @@ def run_history(ctx, rng, script=None):
                 elif op == 'idx':
                     rec.append(rng.randint(-la - 2, la + 1))
                 elif op == 'slice':
-                    bounds = [None] + list(range(-la - 3, la + 4))
+                    # (also bounds no machine word can hold: a str clips them like any other bound)
+                    bounds = [None] + list(range(-la - 3, la + 4)) + [2 ** 63, 10 ** 30, -2 ** 63 - 1, sys.maxsize]
                     rec.extend([rng.choice(bounds), rng.choice(bounds),
                                 rng.choice([None, None, None, 1, 2, -1, 3])])
                 elif op in ('fixed', 'resize'):
                     rec.append(rng.randint(0, la + 3) if rng.random() < 0.7 else la)
                 elif op == 'fmt':
-                    fill = rng.choice(['', '', '*', '0', ' ', '<', 'x', '-', '.', '.', ','])
+                    fill = rng.choice(['', '', '*', '0', ' ', '<', 'x', '-', '.', '.', ',', '\n', '\t', '\x00'])
                     al = rng.choice(['<', '>', '^']) if fill else rng.choice(['', '<', '>', '^'])
                     w = rng.choice(['', str(rng.randint(1, la + 4)), '0'])
                     if w and w != '0' and fill and al and rng.random() < 0.25:
